@@ -27,6 +27,7 @@ that is not a core type, it is never written through the modelled operations, an
 name of a core type (and restricts every discovery predicate to the names of the line).
 
 Quirks reproduced: a miss through `load` leaves a placeholder in the addressed loader only (never in an ancestor);
+`Discover` skips own names by membership in the parent's ANSWER (it does not ask the parent again);
 `SetEntry` of a placeholder over a bound value keeps the value (`nv == nil`); `SetEntry` over a placeholder re-points
 the map slot to the NEW entry (it does not write into the old one); a redefinition error is `…_REDEFINE_TYPE` only when
 both values are types; `load` compares the authority exactly whereas the map key folds its case; `Discover` answers
@@ -166,16 +167,17 @@ def sortKeys : List Key → List Key
   | [] => []
   | k :: r => insertKey k (sortKeys r)
 
-/-- the keys a loader adds to what its parent discovered: value non-nil, `!parent.HasEntry`, predicate -/
-def ownAdded (es : List Ents) (l : Nat) (anc : List Nat) (p : Key → Bool) : List Key :=
-  (es.getD l []).filterMap fun (k, e) => if e.isSome && !hasC es anc k && p k then some k else none
+/-- the keys a loader adds to what its parent discovered (`found`): value non-nil, not already in the parent's answer
+    (`inParent[k]`), predicate -/
+def ownAdded (es : List Ents) (l : Nat) (found : List Key) (p : Key → Bool) : List Key :=
+  (es.getD l []).filterMap fun (k, e) => if e.isSome && !found.contains k && p k then some k else none
 
 /-- `parentedLoader.Discover` along the chain -/
 def discC (es : List Ents) (p : Key → Bool) : List Nat → List Key
   | [] => []
   | l :: anc =>
     let found := discC es p anc
-    let added := ownAdded es l anc p
+    let added := ownAdded es l found p
     if added.isEmpty then found else sortKeys (found ++ added)
 
 /-! ### operations -/
